@@ -1,15 +1,34 @@
 package main
 
 import (
+	"strings"
+	"sync/atomic"
+	"time"
+
 	"github.com/RoaringBitmap/roaring"
 	"github.com/akrennmair/updog"
 )
 
 func init() { commands["c07"] = c07 }
 
-type ctr struct{ n uint64 }
+// ctr is a counter metric that can be armed to block its next Inc (so that a second cache
+// call can be started while the first one is inside the cache).
+type ctr struct {
+	n       uint64
+	armed   int32
+	entered chan struct{}
+	release chan struct{}
+}
 
-func (c *ctr) Inc() { c.n++ }
+func newCtr() *ctr { return &ctr{entered: make(chan struct{}, 1), release: make(chan struct{})} }
+
+func (c *ctr) Inc() {
+	atomic.AddUint64(&c.n, 1)
+	if atomic.CompareAndSwapInt32(&c.armed, 1, 0) {
+		c.entered <- struct{}{}
+		<-c.release
+	}
+}
 
 const bmMarker = uint32(1) << 31
 
@@ -88,7 +107,7 @@ func c07(args []string) {
 			id := t.next()
 			t.next() // CAP
 			max := atou(t.next())
-			g, p, h, m = &ctr{}, &ctr{}, &ctr{}, &ctr{}
+			g, p, h, m = newCtr(), newCtr(), newCtr(), newCtr()
 			cache = updog.NewLRUCache(max, updog.WithCacheMetrics(&updog.CacheMetrics{
 				CacheHit: h, CacheMiss: m, GetCall: g, PutCall: p}))
 			pr("CASE %s\n", id)
@@ -105,6 +124,62 @@ func c07(args []string) {
 			} else {
 				pr("MISS\n")
 			}
+		case "OV":
+			// OV <op A> | <op B>: B is started while A is inside the cache (A's call counter
+			// blocks until B has returned or 300 ms have passed); prints A's then B's result
+			rest := strings.Join(t.f[t.i:], " ")
+			parts := strings.SplitN(rest, " | ", 2)
+			run := func(op string) string {
+				ot := newToks(op)
+				switch ot.next() {
+				case "P":
+					key, nelems, bmid := atou(ot.next()), ot.int(), ot.int()
+					bm := mkBitmap(nelems, bmid)
+					cache.Put(key, bm)
+					return "PUT " + itoa(int(bm.GetSizeInBytes()))
+				case "G":
+					bm, ok := cache.Get(atou(ot.next()))
+					if ok {
+						return "HIT " + itoa(bmIdentity(bm))
+					}
+					return "MISS"
+				}
+				fatal("c07: bad op %q", op)
+				return ""
+			}
+			gate := g
+			if strings.HasPrefix(parts[0], "P") {
+				gate = p
+			}
+			atomic.StoreInt32(&gate.armed, 1)
+			ra, rb := make(chan string, 1), make(chan string, 1)
+			go func() { ra <- run(parts[0]) }()
+			entered := false
+			select {
+			case <-gate.entered:
+				entered = true
+			case <-time.After(2 * time.Second):
+			}
+			go func() { rb <- run(parts[1]) }()
+			var resB string
+			gotB := false
+			select {
+			case resB = <-rb:
+				gotB = true
+			case <-time.After(300 * time.Millisecond):
+			}
+			if atomic.SwapInt32(&gate.armed, 0) == 0 {
+				// the gate was taken: A is blocked in it (or about to be)
+				if !entered {
+					<-gate.entered
+				}
+				gate.release <- struct{}{}
+			}
+			resA := <-ra
+			if !gotB {
+				resB = <-rb
+			}
+			pr("%s\n%s\n", resA, resB)
 		default:
 			fatal("c07: bad line %q", l)
 		}
